@@ -86,6 +86,7 @@ func c14Menu(c lockCfg, thorough bool) func(w *engb.World, st *engb.LState, dept
 		{Dt: 61, Ops: []engb.LOp{{Kind: "lock", Val: 0, Token: 0, Amt: "1"}}},
 		{Dt: 1, Ops: []engb.LOp{{Kind: "lock", Val: 1, Token: 0, Amt: amt(2)}}},
 		{Dt: 1, Ops: []engb.LOp{{Kind: "unlock", Val: 0, Token: 0, Amt: amt(1)}}},
+		{Dt: 1, Ops: []engb.LOp{{Kind: "unlock", Val: 0, Token: 0, Amt: "1"}}}, // a partial unlock that keeps it above the threshold (also while jailed)
 		{Dt: 1, Ops: []engb.LOp{{Kind: "weight", Token: 0, U64: 2}}},
 		{Dt: 1, Ops: []engb.LOp{{Kind: "threshold", Token: 0, Amt: amt(1)}}},
 		{Dt: 1, Ops: []engb.LOp{{Kind: "threshold", Token: 1, Amt: amt(1)}}}, // a threshold on a token nobody holds yet
@@ -143,6 +144,17 @@ func c14Monitor(r *mc.Run, c lockCfg) engb.Monitor {
 				r.Outcome("truncated-empty-set")
 			} else {
 				r.Outcome("block-failed(other property)")
+				// the block logic failing is C13's subject; what this property says about the state
+				// right after the block's requests still applies: a validator that is in jail has no
+				// voting power and no place in the ranking, whatever was requested
+				if paux, _ := pre.Aux.(*c14Aux); paux != nil && res.AfterTx != nil {
+					for a, rv := range paux.V {
+						v, ok := res.AfterTx.Vals[a]
+						if ok && rv.Jailed && !rv.Tomb && v.Status == lockingtypes.Downgrade && (v.Power != 0 || inRanking(res.AfterTx, a)) {
+							viol("jailed-validator-keeps-power-or-membership", fmt.Sprintf("validator %x power=%d ranking=%v after the block's requests (the block then failed: %v)", a, v.Power, inRanking(res.AfterTx, a), res.EndErr))
+						}
+					}
+				}
 			}
 			return
 		}
